@@ -757,7 +757,24 @@ impl Scenario for ReclaimScenario {
 // ---------------------------------------------------------------------------
 pub struct MultiScenario;
 
-const INST_SPECS: &[(&str, &str)] = &[("d", "a"), ("d", "b"), ("d2", "a"), ("d", "a.b"), ("d", "t-1"), ("d2", "\u{fc}ber"), ("d3", "a b")];
+// (data dir, key): pairwise either the directories differ or the keys sanitize differently - including keys that
+// consist of disallowed characters only (directory name = "ns_" + hash of the key) and keys that differ in case
+const INST_SPECS: &[(&str, &str)] = &[
+    ("d", "a"),
+    ("d", "b"),
+    ("d2", "a"),
+    ("d", "a.b"),
+    ("d", "t-1"),
+    ("d2", "\u{fc}ber"),
+    ("d3", "a b"),
+    ("d", "\u{65e5}\u{672c}"),
+    ("d", "\u{4e2d}\u{56fd}"),
+    ("d", "///"),
+    ("d", "***"),
+    ("d", "A"),
+    ("d", "_"),
+    ("d", "__"),
+];
 
 pub fn gen_multi(seed: u64) -> Plan {
     let mut rng = crate::rng::Rng::new(crate::rng::mix(seed, 0xC13));
@@ -862,10 +879,12 @@ pub fn gen_multi(seed: u64) -> Plan {
 fn retarget(k: &mut OpKind, inst_new: u32, base_topic: u32, dir_new: &str, key_new: &str) {
     use OpKind::*;
     match k {
-        Open { inst, key, dir, .. } => {
+        Open { inst, key, dir, via_env, .. } => {
             *inst = inst_new;
             *key = Some(key_new.to_string());
             *dir = dir_new.to_string();
+            // a third of the instances get their directory through the environment variable
+            *via_env = crate::rng::fnv64(format!("{}|{}", dir_new, key_new).as_bytes()) % 3 == 0;
         }
         Close { inst } | Counts { inst } => *inst = inst_new,
         Append { inst, topic, .. }
